@@ -31,6 +31,21 @@ def respSpec [DecidableEq α] (b a : List α) (w : α) : Resp α :=
     | none => .nan
     | some v => .val v
 
+/-- `Σ coeff · w^delay` over the entries of a `{delay: coeff}` dict (delays in ℤ) -/
+def evalTerms (ts : Terms α) (w : α) : α :=
+  match ts with
+  | [] => 0
+  | t :: ts => t.2 * zpw w t.1 + evalTerms ts w
+
+def HspecTerms [DecidableEq α] (num den : Terms α) (w : α) : Option α :=
+  if evalTerms den w = 0 then none else some (evalTerms num w / evalTerms den w)
+
+def respSpecTerms [DecidableEq α] (num den : Terms α) (w : α) : Resp α :=
+  if den.all (fun t => decide (t.2 = 0)) then .valueError
+  else match HspecTerms num den w with
+    | none => .nan
+    | some v => .val v
+
 def prodResp : List (Resp α) → Resp α
   | [] => .typeError
   | [r] => r
